@@ -76,7 +76,7 @@ def run_dec(ctx, binp, casep, tracep, timeout=900):
     recovered), record that case as crashed - this is behaviour of the code under test - and resume after it."""
     ncases = len(vf.read_lines(casep))
     out_lines = []
-    start, deaths = 0, 0
+    start, deaths, stopped = 0, 0, False
     while start < ncases:
         part = tracep + ".part"
         if os.path.exists(part):
@@ -88,13 +88,18 @@ def run_dec(ctx, binp, casep, tracep, timeout=900):
         for ln in lines:
             if ln.startswith('{"i":') and '"op":"begin"' in ln[:40]:
                 last_begin = json.loads(ln)["i"]
+            elif '"op":"stopped"' in ln[:200]:
+                st = json.loads(ln)
+                vf.log("  driver stopped after %d panics / gross over-allocations; %d cases not run" % (25, st["left"]))
+                ctx.cov["actions"]["cases_not_run"] = st["left"]
+                stopped = True
             else:
                 out_lines.append(ln)
                 try:
                     done.add(json.loads(ln)["i"])
                 except Exception:
                     pass
-        if r.returncode == 0:
+        if r.returncode == 0 or stopped:
             break
         if last_begin is None or last_begin in done:
             raise vf.Infra("driver failed outside a case rc=%d:\n%s\n%s" % (r.returncode, r.stdout[-3000:], r.stderr[-3000:]))
@@ -105,7 +110,7 @@ def run_dec(ctx, binp, casep, tracep, timeout=900):
         out_lines.append(json.dumps({"op": "dec", "i": last_begin, "ty": case["ty"], "cls": case.get("cls", ""), "in": case["in"],
                                      "crash": (why + ": " + "; ".join(m[:2]))[:300]}))
         deaths += 1
-        if deaths > 8:
+        if deaths > 4:
             vf.log("  driver died %d times; remaining cases not run" % deaths)
             break
         start = last_begin + 1
